@@ -53,6 +53,7 @@ type Obligation struct {
 	Result  *SolverResult
 	Query   string
 	regexPattern, regexSpec string
+	Cover   bool // reachability query: premises and the path condition must be satisfiable (expected sat)
 }
 
 type deferRec struct {
@@ -127,6 +128,8 @@ type enc struct {
 	rangeInfo  map[*ssa.Range]*rangeRec
 	defs       map[string]string
 	guardOf    map[ssa.Value]guardInfo
+	coverOrd   int
+	covers     []*Obligation
 }
 
 type guardInfo struct {
@@ -551,7 +554,7 @@ func (e *enc) val(v ssa.Value) Val {
 	case *ssa.Global:
 		name := e.globalName(x)
 		el := x.Type().(*types.Pointer).Elem()
-		return Val{T: fmt.Sprint(e.v.globalID(name)), S: "Int", GT: x.Type(), A: &Addr{Root: "cell", Var: name, RT: el}}
+		return Val{T: smtInt(fmt.Sprint(e.v.globalID(name))), S: "Int", GT: x.Type(), A: &Addr{Root: "cell", Var: name, RT: el}}
 	case *ssa.Function:
 		return Val{T: fmt.Sprint(e.v.funcID(x)), S: "Int", GT: x.Type(), Fn: x}
 	case *ssa.Builtin:
@@ -703,3 +706,16 @@ func (e *enc) deferFlag(d *ssa.Defer) string {
 	return "defer.unknown"
 }
 
+
+// cover records a reachability query for the current point: the premises gathered so far together with the
+// path condition must be satisfiable. `unsat` means the point is dead code or, worse, that contracts, axioms
+// or the encoding contradict each other there (everything after it would be proved vacuously).
+func (e *enc) cover(label string, pos token.Pos) {
+	o := &Obligation{Name: e.name + "/cover/" + label, Func: e.name, Kind: "cover", Label: label, Src: "reachable: premises and path condition are satisfiable",
+		nBody: len(e.body), Goal: e.curReach, enc: e, Cover: true}
+	if pos.IsValid() && e.fn != nil {
+		p := e.fn.Prog.Fset.Position(pos)
+		o.Pos = fmt.Sprintf("%s:%d", strings.TrimPrefix(p.Filename, e.v.repo+"/"), p.Line)
+	}
+	e.covers = append(e.covers, o)
+}
